@@ -1,1 +1,127 @@
-From Verif Require Import Model.Forwarding Proofs.C20.
+(* C20 — Velocity modern forwarding data is authentic and negotiated like Velocity.
+   Only statements and `exact`; proofs in Proofs/C20.v and Proofs/C20_parse.v.
+   Model: Model/Forwarding.v (find_version = findForwardingVersion, velocity_choice = Velocity's choice,
+   impl_requested / spec_requested = reading of the request byte (gate: unsigned, Velocity: readByte,
+   signed), body / forwarding_data = CreateForwardingData, paper_check_integrity / paper_parse = Paper's
+   side, login_run = the backend login fragment), Base/Hmac.v + Base/Sha256.v executable. *)
+From Coq Require Import List NArith ZArith Bool.
+From Verif Require Import Base.Hex Base.Sha256 Base.Hmac Model.Prim Model.Forwarding
+  Proofs.C03_Bytes Proofs.C20 Proofs.C20_parse.
+Import ListNotations.
+Open Scope Z_scope.
+
+(* "The forwarding version chosen equals Velocity's choice for every requested version, client protocol
+   and key revision": the version function itself, for every requested int (not only 0..255), every
+   protocol number and every key kind. *)
+Theorem C20_version : forall r p k, find_version r p k = velocity_choice r p k.
+Proof. exact version_eq. Qed.
+Print Assumptions C20_version.
+
+(* ... and at the level of the request the backend sends (one byte): off the recorded trigger the code
+   chooses what Velocity chooses; on it (byte >= 0x80 with a 1.19.3+ client or a keyed player) the two
+   always differ, because gate reads the byte unsigned and Velocity signed (finding C20-1). *)
+Theorem C20_version_request_off_trigger : forall data p k,
+  Forall (fun b => (b < 256)%N) data ->
+  trigger_unsigned data p k = false ->
+  find_version (requested_of_data impl_requested data) p k
+  = velocity_choice (requested_of_data spec_requested data) p k.
+Proof. exact choice_off_trigger. Qed.
+Print Assumptions C20_version_request_off_trigger.
+
+Theorem C20_version_request_on_trigger : forall data p k,
+  Forall (fun b => (b < 256)%N) data ->
+  trigger_unsigned data p k = true ->
+  find_version (requested_of_data impl_requested data) p k
+  <> velocity_choice (requested_of_data spec_requested data) p k.
+Proof. exact choice_on_trigger. Qed.
+Print Assumptions C20_version_request_on_trigger.
+
+Theorem C20_unsigned_byte_refuted :
+  trigger_unsigned [128%N] 761 KNone = true /\
+  find_version (requested_of_data impl_requested [128%N]) 761 KNone = 4 /\
+  velocity_choice (requested_of_data spec_requested [128%N]) 761 KNone = 1.
+Proof. exact unsigned_refuted. Qed.
+Print Assumptions C20_unsigned_byte_refuted.
+
+(* the whole answer of the code equals the demanded one off the trigger *)
+Theorem C20_impl_eq_spec_off_trigger : forall data i,
+  Forall (fun b => (b < 256)%N) data ->
+  trigger_unsigned data (f_protocol i) (kind_of (f_key i)) = false ->
+  impl_forwarding_data data i = spec_forwarding_data data i.
+Proof. exact impl_eq_spec_off_trigger. Qed.
+Print Assumptions C20_impl_eq_spec_off_trigger.
+
+(* "the forwarding payload ... is authenticated with HMAC-SHA256 under the configured secret": the
+   payload is mac ++ body with mac = HMAC-SHA256(secret, body), and Paper's integrity check accepts it. *)
+Theorem C20_mac : forall requested i d,
+  forwarding_data requested i = Some d ->
+  exists b, body requested i = Some b /\
+            d = hmac_sha256 (f_secret i) b ++ b /\
+            firstn 32 d = hmac_sha256 (f_secret i) (skipn 32 d) /\
+            paper_check_integrity (f_secret i) d = true.
+Proof. exact mac_thm. Qed.
+Print Assumptions C20_mac.
+
+(* a payload is always produced (the "player auth key missing" error cannot occur: versions 2 and 3 are
+   only chosen for a player that has a key) *)
+Theorem C20_always_answered : forall requested i, exists b, body requested i = Some b.
+Proof. exact body_total. Qed.
+Print Assumptions C20_always_answered.
+
+(* "when parsed the way a Paper backend parses it, yields exactly the player's IP, UUID, name and profile
+   properties (and key data for the versions that carry it)", nothing left over.  dom_input: the
+   length limits of the readers (address <= 32767 chars, name <= 16 chars, key <= 512 and signature
+   <= 4096 bytes, int64 expiry) and a 16-byte uuid. *)
+Theorem C20_parse : forall requested i b,
+  dom_input i ->
+  body requested i = Some b ->
+  paper_parse b = Ok (expected_parsed (find_version requested (f_protocol i) (kind_of (f_key i))) i, []).
+Proof. exact parse_body_thm. Qed.
+Print Assumptions C20_parse.
+
+(* the demanded answer to a request: authentic, Velocity's version, the player's data *)
+Theorem C20_spec_answer : forall data i d,
+  dom_input i ->
+  spec_forwarding_data data i = Some d ->
+  paper_check_integrity (f_secret i) d = true /\
+  paper_parse (skipn 32 d)
+  = Ok (expected_parsed (velocity_choice (requested_of_data spec_requested data) (f_protocol i)
+                                         (kind_of (f_key i))) i, []).
+Proof. exact spec_answer_thm. Qed.
+Print Assumptions C20_spec_answer.
+
+(* "a backend that completes login without requesting forwarding is refused": in velocity mode, any
+   run of login-phase packets in which no velocity:player_info request precedes the login success ends
+   in the disconnect result (and nothing is processed after it) *)
+Theorem C20_required : forall pre post,
+  Forall (fun e => e = EvPluginRequest false) pre ->
+  login_run true false (pre ++ EvLoginSuccess :: post) = map (fun _ => OutIgnored) pre ++ [OutRefused].
+Proof. exact required_thm. Qed.
+Print Assumptions C20_required.
+
+(* non-vacuity / the other direction *)
+Theorem C20_answered_then_proceeds : forall post,
+  login_run true false (EvPluginRequest true :: EvLoginSuccess :: post)
+  = OutAnswered :: OutProceed :: login_run true true post.
+Proof. exact answered_then_proceeds. Qed.
+
+Theorem C20_other_modes_never_refuse : forall es forwarded, ~ In OutRefused (login_run false forwarded es).
+Proof. exact other_modes_never_refuse. Qed.
+
+(* every run of the model satisfies the predicate the judge evaluates on observed runs *)
+Theorem C20_required_all_runs : forall vm es forwarded,
+  required_holds vm forwarded es (login_run vm forwarded es) = true.
+Proof. exact required_holds_model. Qed.
+Print Assumptions C20_required_all_runs.
+
+Example C20_parse_nonvacuous :
+  let key := mkKey KV2 1700000000000 [1%N;2%N;3%N] [4%N;5%N] (Some (repeat 7%N 16)) in
+  let i := mkIn [115%N] [49%N;46%N;50%N] 760 (repeat 9%N 16) [80%N;108%N]
+                [([116%N], ([118%N;0%N], [115%N]))] (Some key) in
+  find_version 3 760 KV2 = 3 /\
+  match forwarding_data 3 i with
+  | Some d => paper_check_integrity [115%N] d = true /\
+              (match paper_parse (skipn 32 d) with Ok (p, []) => pr_version p =? 3 | _ => false end) = true
+  | None => False
+  end.
+Proof. exact parse_nonvacuous. Qed.
